@@ -13,6 +13,14 @@ theorem sim_step {α} (c : Cur α) (s : SCur α) (o : Op α) (h : Sim c s) :
   | exec rs => simp [step, sstep, Sim, ha]
   | fail => simp [step, sstep, Sim, ha]
   | setAs n => simp [step, sstep, Sim, hr, hi]
+  | pandas =>
+    cases hrs : c.rows? with
+    | none =>
+      have : s.res? = none := by rw [← hr, hrs]
+      simp [step, sstep, hrs, this, Sim, ha, hi]
+    | some rs =>
+      have hs : s.res? = some rs := by rw [← hr, hrs]
+      simp [step, sstep, hrs, hs, Sim, ha, hi]
   | one =>
     cases hrs : c.rows? with
     | none =>
